@@ -427,4 +427,6 @@ def run(repo, tier):
     from .common import run_cache_pure
     from .C08 import CACHE_PURE_OK
     run_cache_pure(repo, res, modules={m for m in repo.modules if '.tests' not in m}, exempt=CACHE_PURE_OK)
+    from .common import run_generic_pack
+    run_generic_pack(repo, res, PROP, ())
     return res
